@@ -3,7 +3,7 @@
     autochemistry.py : determine_active_inactive, compute_mu_profile ;
     gas/constantgas.py, twopointgas.py, arraygas.py, powergas.py, twolayergas.py). *)
 From Coq Require Import ZArith List Bool Arith.
-From TV Require Import Num ListNum.
+From TV Require Import Num ListNum Model_C12.
 Import ListNotations.
 
 Section Mixture.
@@ -80,3 +80,14 @@ Section LogProfiles.
          P Ts.
 
 End LogProfiles.
+
+Section TwoLayer.
+  Context {T : Type} {N : Num T}.
+  Local Open Scope num_scope.
+  (* TwoLayerGas.initialize_profile, in log10 of the mixing ratio: nodes at ln P of the surface, the two ends of the
+     transition and the top, with values surface, surface, top, top; interpolated over ln P, smoothed with a moving
+     average of odd width and spliced (the same routine as the N-point temperature profile) *)
+  Definition twolayer_log (lnP : list T) (start_l end_l : nat) (ls lt : T) (wsize0 : nat) : list T :=
+    smooth_profile lnP [nth_d lnP 0; nth_d lnP start_l; nth_d lnP end_l; nth_d lnP (length lnP - 1)]
+                   [ls; ls; lt; lt] wsize0.
+End TwoLayer.
